@@ -70,6 +70,14 @@ MUTATIONS = [
     ("tlexport/quic/quic_frame.py", "        self.len_bit = (payload[0] & 1) == 1", "        self.len_bit = (payload[0] & 1) == 0", "DatagramFrame: LEN bit inverted"),
     ("tlexport/quic/quic_frame.py", "class PingFrame(Frame):\n    frame_type = 0x01\n    length = 1", "class PingFrame(Frame):\n    frame_type = 0x01\n    length = 2", "PingFrame: class attribute length 2"),
     ("tlexport/quic/quic_frame.py", "        self.data = payload[1 + self.length: 1 + self.length + self.frame_length]\n\n        self.length = self.length + self.frame_length", "        self.data = payload[1 + self.length: 1 + self.length + self.frame_length]\n\n        self.length = self.length + self.frame_length + 1", "GenericFrame: one byte too long"),
+    ("tlexport/checksums.py", "    while checksum > 0xFFFF:", "    while checksum > 0x10000:", "ones_complement_checksum: fold stops at 0x10000"),
+    ("tlexport/checksums.py", "        checksum = first + last\n", "        checksum = last\n", "ones_complement_checksum: carry dropped"),
+    ("tlexport/checksums.py", "    if len(checksum_arr) % 2 != 0:\n        checksum_arr.extend(b'\\x00')", "    if len(checksum_arr) % 2 != 0:\n        checksum_arr.extend(b'\\xff')", "ones_complement_checksum: padded with 0xff"),
+    ("tlexport/checksums.py", "        out_arr[i] = ~out_arr[i] + 256", "        out_arr[i] = ~out_arr[i] + 255", "ones_complement_checksum: complement off by one"),
+    ("tlexport/checksums.py", "    udp_data[6:8] = bytearray(b\"\\x00\\x00\")", "    udp_data[4:6] = bytearray(b\"\\x00\\x00\")", "calculate_checksum_udp: wrong field zeroed"),
+    ("tlexport/checksums.py", "    if calculated_checksum == b'\\x00\\x00':\n        calculated_checksum = bytearray(b'\\xff\\xff')", "    if calculated_checksum == b'\\x00\\x00':\n        calculated_checksum = bytearray(b'\\x00\\x00')", "calculate_checksum_udp: RFC 768 zero rule lost"),
+    ("tlexport/checksums.py", "    if calculated_checksum == b'\\x00\\x00' and packet_checksum == b'\\xff\\xff':\n        return True", "    if calculated_checksum == b'\\x00\\x00' and packet_checksum == b'\\xff\\xff':\n        return False", "calculate_checksum_tcp: the two zeros no longer match"),
+    ("tlexport/checksums.py", "    tcp_data[16:18] = bytearray(b'\\x00\\x00')", "    tcp_data[16:18] = bytearray(b'\\x00')", "calculate_checksum_tcp: field replaced by one byte"),
     ("tlexport/main.py", "if ((int(packet.tls_data[0]) & 0x40) >> 6) == 1 or args.greasy:", "if ((int(packet.tls_data[0]) & 0x80) >> 7) == 1 or args.greasy:", "run: fixed bit is bit 7"),
     ("tlexport/main.py", "                if len(cid) > 0 and cid == packet_payload[1:1 + len(cid)]:", "                if cid == packet_payload[1:1 + len(cid)]:", "handle_quic_packet: empty CID matches"),
     ("tlexport/main.py", "                    candidates = session.server_cids\n", "                    candidates = session.client_cids\n", "handle_quic_packet: sender-side CIDs"),
@@ -80,6 +88,8 @@ MUTATIONS = [
 
 # behaviour-preserving rewrites: (file, [(old, new)…], what)
 REWRITES = [
+    ("tlexport/checksums.py", [("        first = checksum >> 16\n        last = checksum & 0xFFFF\n        checksum = first + last",
+                                "        checksum = (checksum & 0xFFFF) + (checksum >> 16)")], "ones_complement_checksum: fold in one line, operands swapped"),
     ("tlexport/quic/quic_frame.py", [("        index = self.length\n\n        self.length += self.crypto_length\n        self.crypto = payload[index: self.length]",
                                       "        index = self.length\n        end = index + self.crypto_length\n        self.crypto = payload[index: end]\n        self.length = end")],
      "CryptoFrame: the end of the data computed first"),
@@ -111,6 +121,8 @@ def group_of(what):
              "matches_session": ["Demux"], "run": ["Demux"], "OutputBuilder": ["Ports"], "QUICOutputbuilder": ["Ports"],
              "Session.handle_packet": ["Reasm"], "extract_server_buf": ["Reasm"], "extract_client_buf": ["Reasm"],
              "PACKET_TYPE_MAP": ["Pn"], "set_packet_number_spaces": ["Pn"]}
+    if fn in ("ones_complement_checksum", "calculate_checksum_udp", "calculate_checksum_tcp"):
+        return ["Checksum"]
     if fn in ("parse_frames", "frame_type") or fn.endswith("Frame"):
         return ["Frames"]
     if fn == "handle_quic_packet":
